@@ -403,3 +403,11 @@ def npRealIfClose1 (zs : List Cx) : List Cx := if zs.all cxImagSmall then zs.map
 
 def npRealIfClose2 (m : List (List Cx)) : List (List Cx) :=
   if m.all (fun r => r.all cxImagSmall) then m.map (fun r => r.map cxReal) else m
+
+namespace MsmVerif.Gen
+
+/-- `np.zeros((a, b))` with the shape check numpy makes: a negative dimension is a `ValueError` -/
+def npZeros2 {α : Type} (a b : Int) (zero : α) : Py (List (List α)) :=
+  if a < 0 ∨ b < 0 then .error .value else .ok (pyFull2 a b zero)
+
+end MsmVerif.Gen
